@@ -22,6 +22,7 @@ package main
 
 import (
 	"bytes"
+	"context"
 	"errors"
 	"fmt"
 	"go/ast"
@@ -36,7 +37,9 @@ import (
 	"strings"
 
 	"github.com/jessevdk/go-flags"
-	"github.com/pkg/diff"
+	"github.com/pkg/diff/ctxt"
+	"github.com/pkg/diff/myers"
+	"github.com/pkg/diff/write"
 	"github.com/uber-go/gopatch/internal/astdiff"
 	"github.com/uber-go/gopatch/internal/engine"
 	"github.com/uber-go/gopatch/internal/vhook"
@@ -437,7 +440,35 @@ func (cmd *mainCmd) preview(
 	comments []string,
 ) error {
 	cmd.printComments(filename, comments)
-	return diff.Text(filename, filename, originalContent, modifiedContent, cmd.Stdout)
+
+	// The lines are cut here rather than by the diff package: its reader
+	// gives up on lines longer than 64 KiB, so that no diff was printed for
+	// files that the other modes handle.
+	ab := &lineDiff{a: splitLines(originalContent), b: splitLines(modifiedContent)}
+	script := ctxt.Size(myers.Diff(context.Background(), ab), 3)
+	return write.Unified(script, cmd.Stdout, ab, write.Names(filename, filename))
+}
+
+// lineDiff is a pair of texts, cut into lines, for the diff package.
+type lineDiff struct{ a, b []string }
+
+func (d *lineDiff) LenA() int                                { return len(d.a) }
+func (d *lineDiff) LenB() int                                { return len(d.b) }
+func (d *lineDiff) Equal(ai, bi int) bool                    { return d.a[ai] == d.b[bi] }
+func (d *lineDiff) WriteATo(w io.Writer, i int) (int, error) { return io.WriteString(w, d.a[i]) }
+func (d *lineDiff) WriteBTo(w io.Writer, i int) (int, error) { return io.WriteString(w, d.b[i]) }
+
+// splitLines cuts text into its lines, without the "\n" or "\r\n" that
+// ends them (like bufio.ScanLines, but without a limit on their length).
+func splitLines(text []byte) []string {
+	lines := strings.Split(string(text), "\n")
+	if n := len(lines); n > 0 && lines[n-1] == "" {
+		lines = lines[:n-1]
+	}
+	for i, line := range lines {
+		lines[i] = strings.TrimSuffix(line, "\r")
+	}
+	return lines
 }
 
 func (cmd *mainCmd) printComments(filename string, comments []string) {
